@@ -193,9 +193,20 @@ pub fn twice<F: Fn() -> Result<String, String>>(out: &Path, f: F) -> Result<Stri
     }
 }
 
+thread_local! {
+    /// the checks that do not depend on the position of the model window in the code space (generation over an existing
+    /// output, second emission of a parsed aggregator) are made for the first base of every model input only
+    static FULL: std::cell::Cell<bool> = std::cell::Cell::new(true);
+}
+
 pub fn run_generators(dir: &Path) -> Result<String, String> {
     let out = dir.join("tables.rs");
-    twice(&out, || run_generators_once(dir, &out))
+    if FULL.with(|f| f.get()) {
+        twice(&out, || run_generators_once(dir, &out))
+    } else {
+        std::fs::remove_file(&out).ok();
+        run_generators_once(dir, &out)
+    }
 }
 
 fn run_generators_once(dir: &Path, out: &Path) -> Result<String, String> {
@@ -215,6 +226,9 @@ fn run_generators_once(dir: &Path, out: &Path) -> Result<String, String> {
     gen.generate_code().map_err(|e| e.to_string())?;
     drop(gen);
     let text = std::fs::read_to_string(out).map_err(|e| e.to_string())?;
+    if !FULL.with(|f| f.get()) {
+        return Ok(text);
+    }
     // a parsed aggregator emits the same code every time it is asked to (two copies for two crates)
     let mut agg = GeneralCategoryGen::new();
     agg.add(Box::new(UcdTableGen::new("Lu", "T_GC")));
@@ -253,7 +267,8 @@ fn expected_at<'a>(m: &'a Value, cp: u32) -> &'a Value {
 pub fn replay_gen(doc: &Value, t: &mut Tally) {
     let m = doc["m"].as_u64().unwrap() as u32;
     let dir = scratch();
-    for base in GEN_BASES.iter() {
+    for (bi, base) in GEN_BASES.iter().enumerate() {
+        FULL.with(|f| f.set(bi == 0));
         let mut text = String::new();
         for l in doc["lines"].as_array().unwrap() {
             let mcp = l["cp"].as_u64().unwrap() as u32;
@@ -345,6 +360,7 @@ pub fn replay_gen(doc: &Value, t: &mut Tally) {
 
 /// malformed First/Last structure: the real folding must reject with the error the model names
 pub fn replay_generr(doc: &Value, t: &mut Tally) {
+    FULL.with(|f| f.set(true));
     let dir = scratch();
     let want = match doc["err"].as_str().unwrap_or("") {
         "expected end of range" => "Expected end range",
@@ -392,6 +408,7 @@ fn run_prop_kind(kind: usize, dir: &Path, out: &Path) -> Result<String, String> 
             sg.add(Box::new(UcdTableGen::new($a, "T_GC2")));
             ucd_gen.add(Box::new(sg));
             // a parsed aggregator emits the same code every time it is asked to
+            if FULL.with(|f| f.get()) {
             let mut agg: UnicodeGen<$t> = UnicodeGen::new();
             agg.add(Box::new(UcdTableGen::new($a, "T_GC")));
             agg.add(Box::new(UcdTableGen::new($b, "T_VIR")));
@@ -407,6 +424,7 @@ fn run_prop_kind(kind: usize, dir: &Path, out: &Path) -> Result<String, String> 
             }
             if copies[0] != copies[1] {
                 return Err(format!("STALE: the second emission of a parsed aggregator differs from the first ({} vs {} bytes)", copies[0].len(), copies[1].len()));
+            }
             }
         }};
     }
@@ -463,7 +481,15 @@ pub fn replay_prop(doc: &Value, t: &mut Tally) {
         drop(f);
         t.executions += 1;
         let out = dir.join("scripts.rs");
-        let res = std::panic::catch_unwind(|| twice(&out, || run_prop_kind(kind, &dir, &out)));
+        FULL.with(|f| f.set(bi == 0 || kind != 0));
+        let res = std::panic::catch_unwind(|| {
+            if FULL.with(|f| f.get()) {
+                twice(&out, || run_prop_kind(kind, &dir, &out))
+            } else {
+                std::fs::remove_file(&out).ok();
+                run_prop_kind(kind, &dir, &out)
+            }
+        });
         let src = match res {
             Err(_) => {
                 t.mismatch(json!({"k": "prop", "format": label, "base": base, "lines": doc["lines"], "actual": "panic in the generators"}));
